@@ -20,6 +20,7 @@ EXPLANATION = (
     "the same values through the same ordered views."
     " Later additions: the driver now distinguishes the per-field `__SerializeWith` wrappers (they used to collapse into one function), so the value type behind every ordered view is the field's own; the re-sort of optimize() is on every exit of the function."
     ' Round 6: no cell-typed field in the engine can hold a remembered buffer (C06.1 borrowed).'
+    " Round 8: the key the buckets are ordered by (NetworkFilter.id) is the parser's line hash or the value read back, never re-assigned (a tag-blind structural id makes fused rules tie, and ties are written in hash order)."
 )
 NOT_DECIDED = "Byte-level determinism of rmp-serde itself (dependency); C08's field fidelity is assumed."
 
@@ -272,6 +273,10 @@ def verify_row(F, fn_, kind):
         # no Vec::push directly in the function body onto a Vec that outlives the loop iteration
         # (pushes inside and_modify closures target the map's value under the iterated key)
         direct = [(b, t) for b, t in f.calls(r"^std::vec::Vec::push$")]
+        # `map.entry(key).or_default().push(x)` / `.or_insert_with(..).push(x)`: the push goes to the value under that key
+        direct = [(b, t) for b, t in direct
+                  if not re.match(r"^std::collections::hash_map::Entry::(or_default|or_insert_with|or_insert)\(std::collections::HashMap::entry\(",
+                                  f.expr_operand(t["args"][0]))]
         if fn_.endswith("NetworkFilterList::optimize"):
             # pushes into per-bucket temporaries created inside the loop body
             direct = [(b, t) for b, t in direct
@@ -305,9 +310,9 @@ def verify_row(F, fn_, kind):
         ok = True
         for g, b, t in F.callers_of(r"^blocker::Blocker::tags_enabled$"):
             users.append(g.name)
-            sinks = g.calls(r"Iterator::collect$|::contains$|^blocker::Blocker::use_tags$")
+            sinks = g.calls(r"Iterator::collect$|::contains$|^blocker::Blocker::use_tags$|Iterator>?::(any|all)$")
             into_set = any("HashSet<" in " ".join(t2.get("gen", [])) or "contains" in t2["callee"]
-                           or "use_tags" in t2["callee"] for b2, t2 in sinks)
+                           or "use_tags" in t2["callee"] or re.search(r"::(any|all)$", strip_generics(t2["callee"])) for b2, t2 in sinks)
             if not into_set:
                 ok = False
         ser = F.cone(["engine::Engine::serialize_raw"])
